@@ -21,7 +21,7 @@ impl Property for C11 {
          oracle = objective evaluated exactly on ALL 2^n assignments + multilinear reduction (unique representation); non-trivial = n>=3 and (a monomial with a repeated id or a cancelling pair); distinct = sha256(instance, mode)"
     }
     fn required_labels(&self) -> Vec<String> {
-        ["x^2", "cancel", "deg>2-collapses-to-pair", "refusal=constraint", "refusal=maximize", "refusal=non-binary", "refusal=qubo-3-distinct", "format=pubo", "format=qubo", "regime=general", "regime=dyadic", "removed-constraint-present", "objective-absent", "unused-non-binary-variable", "non-binary-variable-in-removed-constraint"].iter().map(|s| s.to_string()).collect()
+        ["x^2", "cancel", "deg>2-collapses-to-pair", "refusal=constraint", "refusal=maximize", "refusal=non-binary", "refusal=qubo-3-distinct", "format=pubo", "format=qubo", "regime=general", "regime=dyadic", "removed-constraint-present", "objective-absent", "unused-non-binary-variable", "non-binary-variable-in-removed-constraint", "id=u64::MAX", "objective-absent+refusal"].iter().map(|s| s.to_string()).collect()
     }
     fn cases(&self, tier: Tier) -> usize {
         match tier {
@@ -42,10 +42,17 @@ impl Property for C11 {
         let nmax = if ctx.tier == Tier::Quick { 8 } else { 12 };
         let n = 1 + t.choice(nmax);
         let mut ids: Vec<u64> = Vec::new();
-        let mut next = *t.pick(&[0u64, 1, 7, 1 << 35]);
-        for _ in 0..n {
-            ids.push(next);
-            next += 1 + t.choice(3) as u64;
+        let mut next = *t.pick(&[0u64, 1, 7, 1 << 35, u64::MAX]);
+        if next == u64::MAX {
+            // the n largest ids there are
+            ids = (0..n as u64).map(|i| u64::MAX - (n as u64 - 1 - i)).collect();
+            next = 20; // (the optional non-binary variable below gets a small id)
+            ctx.label("id=u64::MAX");
+        } else {
+            for _ in 0..n {
+                ids.push(next);
+                next += 1 + t.choice(3) as u64;
+            }
         }
         // objective: raw terms with repeated ids inside monomials and cancelling pairs
         let max_deg = if qubo && refusal != 4 { 4 } else { 4 };
@@ -107,11 +114,14 @@ impl Property for C11 {
             inst.decision_variables.push(v);
         }
         inst.objective = Some(obj.clone());
-        let absent_objective = terms.is_empty() && refusal == 0 && t.coin();
+        let absent_objective = terms.is_empty() && matches!(refusal, 0 | 1 | 2) && t.coin();
         if absent_objective {
             // an absent objective is the zero function
             inst.objective = None;
             ctx.label("objective-absent");
+            if refusal != 0 {
+                ctx.label("objective-absent+refusal");
+            }
         }
         // variables that are not binary but are not used by the objective do not prevent the export,
         // even when a removed constraint (e.g. one relaxed with an integer slack) mentions them
